@@ -210,11 +210,38 @@ func (vc *VC) modelCall(fr *Frame, st *State, callee *ssa.Function, args []strin
 	case "strings.Join", "fmt.Sprintf", "strconv.FormatFloat", "(time.Time).Format":
 		r := vc.fresh("Int", "str")
 		vc.fact(st.pc, fmt.Sprintf("(>= (slen %s) 0)", r))
+		src := ""
+		if len(argVals) > 0 {
+			src = provenance(argVals[0], 0)
+		}
+		switch full {
+		case "strconv.FormatFloat":
+			kind := "any"
+			if f, ok := constArg(argVals, 1); ok && f == 'f' {
+				if p, ok := constArg(argVals, 2); ok && (p == 5 || p == 3) {
+					kind = fmt.Sprintf("float%d", p)
+				}
+			}
+			vc.setShape(r, shHole(kind, src))
+		case "(time.Time).Format":
+			vc.setShape(r, shHole("time", src))
+		case "strings.Join":
+			vc.setShape(r, shHole("str", src))
+		}
 		return []string{r}, true
 	case "strconv.FormatUint", "strconv.FormatInt":
 		r := vc.def("Int", fmt.Sprintf("(itoa %s)", args[0]), "itoa")
 		vc.needItoa()
 		vc.fact(st.pc, fmt.Sprintf("(>= (slen %s) 1)", r))
+		kind := "int"
+		if full == "strconv.FormatUint" {
+			kind = "uint"
+		}
+		src := ""
+		if len(argVals) > 0 {
+			src = provenance(argVals[0], 0)
+		}
+		vc.setShape(r, shHole(kind, src))
 		return []string{r}, true
 	case "strconv.ParseUint":
 		v := vc.fresh("Int", "parseuint")
